@@ -134,3 +134,25 @@ def fold_flag(ctx: Ctx, rr: RuleResult, module: str, name: str, expect: Any, why
 def require(cond: bool, msg: str) -> None:
     if not cond:
         raise AnalysisError(msg)
+
+
+def dead_by_flag(ctx: Ctx, f: FuncInfo, node: ast.AST) -> bool:
+    """Is node inside a branch whose test folds to a constant that excludes it (e.g. `if _DBG_DISABLE_QOS:` with the flag False)?"""
+    from ..consteval import TOP
+
+    child = node
+    p = getattr(node, "parent", None)
+    while p is not None and not isinstance(p, (ast.FunctionDef, ast.AsyncFunctionDef)):
+        if isinstance(p, ast.If):
+            try:
+                v = ctx.consts.eval_in(f, p.test)
+            except Exception:
+                v = TOP
+            if v is not TOP:
+                if child in p.body and not v:
+                    return True
+                if child in p.orelse and v:
+                    return True
+        child = p
+        p = getattr(p, "parent", None)
+    return False
